@@ -523,11 +523,14 @@ class DnsRecordTxtValueSpfDirectiveBase(ParsableBase, Serializable):
         composer.compose_string(domain)
 
     @classmethod
-    def _parse_ip_network(cls, parser):
+    def _parse_ip_network(cls, parser, ip_network_class):
         parser.parse_string('separator', ':')
         parser.parse_string_until_separator_or_end('ip_network', ' ')
 
-        return parser['ip_network']
+        try:
+            return ip_network_class(six.ensure_text(parser['ip_network']))
+        except ValueError as e:
+            six.raise_from(InvalidValue(parser['ip_network'], cls, 'ip_network'), e)
 
     @classmethod
     def _compose_ip_network(cls, composer, ip_network):
@@ -767,7 +770,7 @@ class DnsRecordTxtValueSpfDirectiveIp4(DnsRecordTxtValueSpfDirectiveBase):
         parser = cls._parse_qualifier_and_mechanism_name(parsable)
 
         qualifier = parser.get('qualifier', None)
-        ipv4_network = cls._parse_ip_network(parser)
+        ipv4_network = cls._parse_ip_network(parser, ipaddress.IPv4Network)
 
         return cls(
             qualifier=qualifier,
@@ -802,7 +805,7 @@ class DnsRecordTxtValueSpfDirectiveIp6(DnsRecordTxtValueSpfDirectiveBase):
         parser = cls._parse_qualifier_and_mechanism_name(parsable)
 
         qualifier = parser.get('qualifier', None)
-        ipv6_network = cls._parse_ip_network(parser)
+        ipv6_network = cls._parse_ip_network(parser, ipaddress.IPv6Network)
 
         return cls(
             qualifier=qualifier,
